@@ -159,12 +159,12 @@ def forward_taint(fn, sources, sanitizer=None, source_nodes=None, max_iter=50):
                     for nm in target_names(tg):
                         if is_t:
                             t.add(nm)
-                        elif isinstance(tg, ast.Name):
+                        else:
                             t.discard(nm)
-                    # x[i] = tainted  -> x tainted
-                    if isinstance(tg, (ast.Subscript, ast.Attribute)) and is_t:
+                    # x[i] = tainted  -> x tainted (local containers only, not attributes of objects)
+                    if isinstance(tg, ast.Subscript) and is_t:
                         base = tg
-                        while isinstance(base, (ast.Subscript, ast.Attribute)):
+                        while isinstance(base, ast.Subscript):
                             base = base.value
                         if isinstance(base, ast.Name):
                             t.add(base.id)
